@@ -186,6 +186,10 @@ def mode1(ctx):
         for name in ("fin", "fin1", "init"):
             m1.holds(name + ", all disturbances, 3 steps", "C04_quick.cfg", sub_cfg(name, "AllKinds", faults=3, horizon=44), timeout=3000)
         m1.holds("fin, crash/stop, 4 steps", "C04_quick.cfg", sub_cfg("fin", "NodeKinds", faults=4, horizon=44), timeout=3000)
+        m1.holds("fin, all disturbances, 3 steps, free interleaving of the two loops", "C04_quick.cfg",
+                 sub_cfg("fin", "AllKinds", faults=3, sched="any"), timeout=3000)
+        m1.holds("fin, all disturbances, 4 steps", "C04_quick.cfg", sub_cfg("fin", "AllKinds", faults=4, horizon=46), timeout=3000)
+        m1.holds("nocyc, 4 steps, free interleaving", "C04_quick.cfg", sub_cfg("nocyc", "InfKinds", faults=4, sched="any"), timeout=3000)
         for name in ("inf", "inf1"):
             m1.holds(name + ", 4 steps", "C04_quick.cfg", sub_cfg(name, "InfKinds", faults=4), timeout=3000)
             m1.holds(name + ", 2 steps, free interleaving", "C04_quick.cfg", sub_cfg(name, "InfKinds", sched="any"), timeout=3000)
